@@ -286,6 +286,15 @@ impl Entries {
     }
 }
 
+#[cfg(rivia_verif)]
+impl Entries {
+    /// Verification hook: override the internal open descriptor cap
+    pub fn verif_max_descriptors(mut self, max: u16) -> Self {
+        self.max_descriptors = max;
+        self
+    }
+}
+
 impl fmt::Debug for Entries {
     fn fmt(&self, f: &mut fmt::Formatter<'_>) -> std::result::Result<(), fmt::Error> {
         f.debug_struct("Entries")
